@@ -43,10 +43,14 @@ StateClauses ==
 AfterWrite == IF {"C12-stored-samples", "C12-stored-sample-changed"} \cap StateClauses # {}
               THEN RejU(StateClauses) ELSE AdvNote(StateClauses)
 
+\* the harness is single-threaded and brackets everything it does itself: a tree that differs from what the last call left
+\* behind was changed by the implementation after that call had returned (a deferred write, a handle closed late)
+TreeMoved == RejU({"C20-tree-changed-after-a-call-had-returned"}) /\ UNCHANGED vars
+
 TWrite ==
   /\ E.ev = "write"
   /\ LET w == W(E) IN
-     IF ~Pre THEN Harness("harness-tree-changed-between-calls")
+     IF ~Pre THEN TreeMoved
      ELSE IF WriteOK(w) \/ (Has(Hdr, "anyorder") /\ Hdr.anyorder /\ WriteOKAny(w))
      \* C12 quantifies over ascending write sequences; C20 over all interleavings of write calls (scenario flag anyorder:
      \* a call may start below what is stored and name its indices in any order)
@@ -62,18 +66,18 @@ TWrite ==
 
 TRfWrite ==
   /\ E.ev = "rfwrite"
-  /\ IF ~Pre THEN Harness("harness-tree-changed-between-calls") ELSE RFWrite(E.h1) /\ Adv
+  /\ IF ~Pre THEN TreeMoved ELSE RFWrite(E.h1) /\ Adv
 
 TAge ==
   /\ E.ev = "age"
-  /\ IF ~Pre THEN Harness("harness-tree-changed-between-calls") ELSE TimePasses(E.h1) /\ Adv
+  /\ IF ~Pre THEN TreeMoved ELSE TimePasses(E.h1) /\ Adv
 
 (***************************************************************************)
 (* Read-only calls                                                         *)
 (***************************************************************************)
 \* C20: the hash of the tree after a read-only call is the hash before it
 ReadOnlyThen(step, notes) ==
-  IF ~Pre THEN Harness("harness-tree-changed-between-calls")
+  IF ~Pre THEN TreeMoved
   ELSE IF E.h1 # disk THEN RejU({"C20-read-only-call-changed-the-tree"}) /\ UNCHANGED vars
   ELSE step /\ AdvNote(notes)
 
